@@ -1788,3 +1788,47 @@ pub fn burst(rng: &mut Rng) -> Program {
     }
     g.prog
 }
+
+/// family "svckeep": registry-spawned services with all client handles dropped; later lookups find the same instance
+pub fn svckeep(rng: &mut Rng) -> Program {
+    let mut g = G::new(rng);
+    let nclients = g.rng.range(1, 3) as usize;
+    let mut d1 = svc_default(1, g.rng);
+    let mut d2 = svc_default(2, g.rng);
+    for d in [&mut d1, &mut d2] {
+        if g.rng.chance(1, 2) {
+            let p = g.dur_pos();
+            d.started.push(if g.rng.chance(1, 2) { SStep::Interval(p) } else { SStep::IntervalWith(p) });
+        }
+    }
+    g.prog.defaults = vec![d1, d2];
+    g.layout(nclients);
+    for c in 0..nclients {
+        let k = g.rng.range(1, 2) as u8;
+        let base = g.sk[c].len() as u16;
+        let ops = &mut g.prog.clients[c];
+        ops.push(if g.rng.chance(1, 4) { Op::Setup { k } } else { Op::FromRegistry { k } });
+        let has = matches!(ops[0], Op::FromRegistry { .. });
+        let mut next = base;
+        if has {
+            ops.push(Op::Call { slot: base, script: vec![], cancel: None });
+            ops.push(Op::Downgrade { slot: base });
+            next = base + 2;
+            ops.push(Op::DropAll);
+        }
+        ops.push(Op::Sleep(g.rng.range(0, 8)));
+        match g.rng.below(3) {
+            0 => {
+                ops.push(Op::TryFromRegistry { k });
+                ops.push(Op::Call { slot: next, script: vec![], cancel: None });
+            }
+            1 => {
+                ops.push(Op::FromRegistry { k });
+                ops.push(Op::Call { slot: next, script: vec![], cancel: None });
+            }
+            _ => ops.push(Op::AlreadyRunning { k }),
+        }
+        ops.push(Op::Sleep(g.rng.range(0, 4)));
+    }
+    g.prog
+}
